@@ -21,6 +21,7 @@ from mc.report import Recorder
 
 PID = "C16"
 LEVEL = "exploration"
+REDUCED = {'quick': 'MEME layouts with 3 motifs use 5 of the 18 per-motif options', 'thorough': 'MEME layouts with 4 motifs use 5 of the 18 per-motif options'}
 RULE = ("extract_loci cases = (input kind, chromosome, locus start, locus end, in_window, out_window, jitter) for every locus of "
         "the synthetic genome + multi-locus configurations; read_meme cases = MEME file layouts; all enumerated completely in the "
         "bound; non-trivial = the locus is kept (exact sequence/signal comparison) or the layout has >= 2 motifs")
